@@ -292,7 +292,10 @@ impl Adapter for StacksAd {
     }
     fn gen_cfg(&mut self, rng: &mut Rng, _size: Size) -> Value {
         let l = *rng.pick(LAYERS);
-        json!({"layer": l, "v": rng.below(6), "inner": *rng.pick(&["strict", "strict", "climit"]), "retries": multi(l), "slow": rng.below(2)})
+        let v = rng.below(6);
+        // retry variants 3 and 4 never retry the failures of these runs (code 1)
+        let noretry = if l == "retry" && (v == 3 || v == 4) { 1 } else { 0 };
+        json!({"layer": l, "v": v, "inner": *rng.pick(&["strict", "strict", "climit"]), "retries": multi(l), "slow": rng.below(2), "noretry": noretry})
     }
     fn build(&mut self, cfg: &Value, sim: &mut Sim) {
         sim.w.lock().unwrap().track_inst = true;
